@@ -12,7 +12,7 @@ CONSTANTS MaxWrite, MaxLen, MaxOps
 BSz == 4
 Cons(v, b) == <<v, b>>
 Id(v) == v
-H == INSTANCE HashObj WITH B <- BSz, CFop <- Cons, IVval <- "iv", Out <- Id
+H == INSTANCE HashObj WITH B <- BSz, CFop <- Cons, IVval <- <<>>, Out <- Id
 
 VARIABLES m, written, nops, lastSum, hist
 
@@ -21,7 +21,7 @@ PadZ(n) == (BSz + BSz - 1 - 1 - (n % BSz)) % BSz
 Pad(msg) == msg \o <<128>> \o Zeros(PadZ(Len(msg))) \o <<Len(msg) % 256>>
 RECURSIVE Absorb(_, _, _)
 Absorb(v, p, i) == IF i > Len(p) THEN v ELSE Absorb(Cons(v, SubSeq(p, i, i + BSz - 1)), p, i + BSz)
-Def(msg) == Absorb("iv", Pad(msg), 1)
+Def(msg) == Absorb(<<>>, Pad(msg), 1)
 
 RECURSIVE Fresh(_, _, _)
 Fresh(from, n, acc) == IF n = 0 THEN acc ELSE Fresh(from + 1, n - 1, Append(acc, (from % 100) + 1))
@@ -52,4 +52,17 @@ LenIsCount  == m.len = Len(written)
 BufIsTail   == m.buf = SubSeq(written, Len(written) - Len(m.buf) + 1, Len(written))
 SumIsDef    == H!Sum(m) = Def(written)
 PadShape    == Len(Pad(written)) % BSz = 0
+
+\* the length-level abstraction HashLen (whose invariants Apalache discharges for every length) is the
+\* projection of this machine: fill level, byte count, number of compressions
+RECURSIVE Depth(_)
+Depth(v) == IF v = <<>> THEN 0 ELSE 1 + Depth(v[1])
+HL == INSTANCE HashLen WITH B <- BSz, LB <- 1, nx <- Len(m.buf), len <- m.len, blocks <- Depth(m.v)
+LenAbstraction ==
+  /\ HL!IndInv
+  /\ \A n \in 0..MaxWrite :
+       LET w == H!Write(m, Fresh(Len(written), n, <<>>))
+           a == HL!WriteStep(Len(m.buf), n)
+       IN Len(w.buf) = a.nx /\ Depth(w.v) = Depth(m.v) + a.cf
+  /\ Depth(H!Sum(m)) = Depth(m.v) + HL!SumStep(Len(m.buf)).extra
 =============================================================================
